@@ -347,7 +347,10 @@ func runC16Hammer(r *Run) {
 		_, _ = w.Write(b)
 	}))
 	defer stormIDP.Close()
-	storm := mk("storm", func(o *oidcv1.OIDCConfig) { o.TokenUri = stormIDP.URL + "/token"; o.JwksConfig = &oidcv1.OIDCConfig_Jwks{Jwks: keys().doc} })
+	storm := mk("storm", func(o *oidcv1.OIDCConfig) {
+		o.TokenUri = stormIDP.URL + "/token"
+		o.JwksConfig = &oidcv1.OIDCConfig_Jwks{Jwks: keys().doc}
+	})
 	cfg.Chains = append(cfg.Chains, &configv1.FilterChain{Name: "storm",
 		Match:   &configv1.Match{Header: "x-app", Criteria: &configv1.Match_Equality{Equality: "storm"}},
 		Filters: []*configv1.Filter{{Type: &configv1.Filter_Oidc{Oidc: storm}}}})
